@@ -966,19 +966,29 @@ class MailExecutor(UnitsExecutor):
 
     # -------------------------------------------------------------- comprehensions --
     def _sym_comp(self, n, st, elt_nodes):
+        """Comprehension / generator expression over a symbolic sequence -> VSeq (None: not symbolic, generic code applies).
+        The target / filter / element are evaluated at a symbolic index J on a scratch copy of the state.  The element may fork
+        (conditional expressions, helpers with try/except): the outcomes are merged into one If-value.  Path conditions that a
+        single-outcome evaluation adds (facts assumed by library models / callee contracts about index J) are kept as facts
+        quantified over the index range."""
         view = self._probe_iter(n, st)
         if view is None:
             return None
+        if len(elt_nodes) != 1:
+            raise Unsupported(f"{self.loc(n)} multi-valued comprehension over a symbolic sequence")
         g = n.generators[0]
         (st, _it) = self.ev(g.iter, st)[0]
         length, elem = view
         snap = st.fork()
 
-        def at(k):
-            """-> (keep Bool term, element value, [assumption terms of that evaluation])  at index term k."""
+        def is_tag(t):
+            return z3.is_const(t) and t.decl().kind() == z3.Z3_OP_UNINTERPRETED and str(t).startswith("__havoc__@")
+
+        def outcomes(k):
+            """-> (keep Bool term, [facts of the filter], [(conditions, value, state)])"""
             s = snap.fork()
-            npc = len(s.pc)
             s.frames.append(Frame({}, len(s.frames) - 1, s.frame.fnode))
+            npc = len(s.pc)
             self.sinks.append([])
             try:
                 cur = self.assign(g.target, elem(k), s)
@@ -992,56 +1002,96 @@ class MailExecutor(UnitsExecutor):
                         raise Unsupported(f"{self.loc(n)} forking comprehension condition")
                     s1, cv = r[0]
                     keep.append(self.truth(s1, cv).t)
-                if len(elt_nodes) != 1:
-                    raise Unsupported(f"{self.loc(n)} multi-valued comprehension")
-                r = self.ev(elt_nodes[0], s1)
-                if len(r) != 1:
-                    raise Unsupported(f"{self.loc(n)} forking comprehension element")
-                s1, v = r[0]
+                pre = list(s1.pc[npc:])
+                keep_t = z3.And(keep + [z3.BoolVal(True)])
+                if keep:
+                    s1.assume(keep_t)          # the element is evaluated only for kept items
+                npc2 = len(s1.pc)
+                res = [(list(s3.pc[npc2:]), v, s3) for (s3, v) in self.ev(elt_nodes[0], s1)]
             finally:
                 sink = self.sinks.pop()
             if sink:
                 raise Unsupported(f"{self.loc(n)} comprehension element may raise")
-            return z3.And(keep + [z3.BoolVal(True)]), v, s1, list(s1.pc[npc:])
+            if not res:
+                raise Unsupported(f"{self.loc(n)} comprehension element has no normal outcome")
+            return keep_t, pre, res
+
+        def scalar(v, s3):
+            return isinstance(v, (VStr, VInt, VBool, VExt)) and not isinstance(v, VDyn) or isinstance(v, VDyn)
+
+        def merge(res, pick):
+            """If-chain over the outcomes' conditions of pick(value, state) (a V of mergeable kind)"""
+            acc = pick(res[-1][1], res[-1][2])
+            for conds, v, s3 in reversed(res[:-1]):
+                c = z3.And([c_ for c_ in conds if not is_tag(c_)] + [z3.BoolVal(True)])
+                m = ops.same_shape_ite(c, pick(v, s3), acc)
+                if m is None:
+                    raise Unsupported(f"{self.loc(n)} comprehension element outcomes of different kinds")
+                acc = m
+            return acc
 
         J = z3.Int(fresh_name("j!comp"))
-        keepJ, vJ, sJ, extraJ = at(J)
-        if extraJ:
-            raise Unsupported(f"{self.loc(n)} comprehension element adds path conditions")
-        # element as a function of the index
-        if isinstance(vJ, VRef):
-            o = sJ.obj(vJ.ref)
+        in_range = z3.And(J >= 0, J < length)
+        keepJ, preJ, resJ = outcomes(J)
+        # facts / tags
+        tags = [c for (conds, _v, _s) in resJ for c in conds if is_tag(c)] + [c for c in preJ if is_tag(c)]
+        for t in dict((str(t), t) for t in tags).values():
+            st.assume(t)
+        facts = [c for c in preJ if not is_tag(c)]
+        if len(resJ) == 1:
+            facts += [z3.Implies(keepJ, c) for c in resJ[0][0] if not is_tag(c)]
+        if facts:
+            st.assume(z3.ForAll([J], z3.Implies(in_range, z3.And(facts))))
+        sample, s_sample = resJ[0][1], resJ[0][2]
+        if isinstance(sample, VRef):
+            o = s_sample.obj(sample.ref)
             sch = self.schema(o.cls) if o.kind == "obj" and o.cls else None
-            if sch is None:
+            if sch is None or any(not (isinstance(v, VRef) and s3.obj(v.ref).kind == "obj" and s3.obj(v.ref).cls == o.cls) for (_c, v, s3) in resJ):
                 raise Unsupported(f"{self.loc(n)} comprehension element is a heap object without schema")
-            ef = z3.Function(fresh_name(f"comp_{o.cls}"), I, ext_sort(o.cls))
-            facts = []
-            for f, kind in sch.items():
-                cur = o.data.get(f)
-                if kind in ("str", "int", "bool") and isinstance(cur, (VStr, VInt, VBool)):
-                    facts.append(ops.eq_term(X._val(kind, fld(o.cls, f, X._sort_of_kind(kind))(ef(J))), cur))
-            if facts:
-                st.assume(z3.ForAll([J], z3.And(facts), patterns=[ef(J)]))
-            ekind = ("obj", o.cls)
             cls = o.cls
+            ef = z3.Function(fresh_name(f"comp_{cls}"), I, ext_sort(cls))
+            ffacts = []
+            for f, kind in sch.items():
+                if kind in ("str", "int", "bool"):
+                    try:
+                        cur = merge(resJ, lambda v, s3, f=f: self.unwrap(s3, s3.obj(v.ref).data.get(f)))
+                    except (Unsupported, AttributeError):
+                        continue
+                    if isinstance(cur, (VStr, VInt, VBool)):
+                        ffacts.append(ops.eq_term(X._val(kind, fld(cls, f, X._sort_of_kind(kind))(ef(J))), cur))
+            if ffacts:
+                st.assume(z3.ForAll([J], z3.Implies(z3.And(in_range, keepJ), z3.And(ffacts)), patterns=[ef(J)]))
+            ekind = ("obj", cls)
 
             def el(k, ef=ef, cls=cls):
                 return VExt(cls, ef(k))
-        elif isinstance(vJ, (VStr, VInt, VBool, VExt)):
-            ekind = X.ekind_of_value(vJ)
+        elif isinstance(sample, (VStr, VInt, VBool, VExt)):
+            mergedJ = merge(resJ, lambda v, s3: v)
+            ekind = X.ekind_of_value(mergedJ)
 
             def el(k):
-                return at(k)[1]
+                _k, _p, res = outcomes(k)
+                return merge(res, lambda v, s3: v)
+        elif isinstance(sample, VTuple):
+            mergedJ = merge(resJ, lambda v, s3: v)
+            ekind = "tuple"
+
+            def el(k):
+                _k, _p, res = outcomes(k)
+                return merge(res, lambda v, s3: v)
         else:
-            raise Unsupported(f"{self.loc(n)} comprehension element {vJ!r}")
+            raise Unsupported(f"{self.loc(n)} comprehension element {sample!r}")
         if not g.ifs:
             return st, VSeq(length, el, ekind, tag=("map", length, el))
-        # filtered: an order-preserving sub-sequence, described by (source length, keep, element)
+        # filtered: an order-preserving sub-sequence, described by (source length, keep, element); its own length / elements are
+        # fresh (only bounded): clauses must read it through the tag (seq_of refuses)
         ln = z3.Int(fresh_name("filter.len"))
         st.assume(z3.And(ln >= 0, ln <= length))
         es = X._sort_of_kind(ekind)
+        keep_fn = lambda k: outcomes(k)[0]
+        if es is None:
+            return st, VSeq(ln, lambda k: VUnk("filtered-elem"), ekind, tag=("filtermap", length, keep_fn, el))
         arr = z3.Const(fresh_name("filter.at"), z3.ArraySort(I, es))
-        keep_fn = lambda k: at(k)[0]
         return st, VSeq(ln, lambda k: X._val(ekind, z3.Select(arr, k)), ekind, tag=("filtermap", length, keep_fn, el))
 
 
@@ -1084,9 +1134,25 @@ def _dummy(kind):
     return lambda k: X._val(kind, z3.Select(arr, k))
 
 
+def comp_tag(st, v):
+    """("map"|"filtermap", source length, keep(k), element(k)) when the list was built by a comprehension over a symbolic
+    sequence (possibly wrapped by list()), else None"""
+    tag = seq_tag(st, v)
+    if isinstance(tag, tuple) and tag and tag[0] == "map":
+        return ("map", tag[1], (lambda k: z3.BoolVal(True)), tag[2])
+    if isinstance(tag, tuple) and tag and tag[0] == "filtermap":
+        return tag
+    return None
+
+
 def seq_of(st, v, kind="str"):
     """(length term, elem fn) of a list value: concrete list, abstract list or symbolic sequence (`kind`: element kind
-    used for the elements of an empty concrete list)."""
+    used for the elements of an empty concrete list).  The result of a FILTERED comprehension has no usable length / element
+    terms of its own (they are fresh): it must be read through comp_tag -- refusing here keeps a clause from "refuting" on an
+    over-approximation."""
+    tag = seq_tag(st, v)
+    if isinstance(tag, tuple) and tag and tag[0] == "filtermap":
+        raise ShapeUnknown("result of a filtered comprehension read positionally")
     if isinstance(v, VRef):
         o = st.obj(v.ref)
         if o.kind == "alist":
